@@ -7,12 +7,20 @@ Record lobs := mkLobs { lo_ok : bool; lo_active : bool; lo_status : dstatus; lo_
 Definition call_target (call : lcall) : N * option N :=
   match call with
   | LActivate c => (c, None) | LDeactivate c => (c, None)
-  | LAttach c d _ => (c, Some d) | LAttachSame c d _ => (c, Some d) | LPushPull c d _ => (c, Some d) | LDetach c d _ => (c, Some d) | LRemove c d _ => (c, Some d)
+  | LAttach c d _ => (c, Some d) | LAttachSame c d _ => (c, Some d) | LPushPull c d _ => (c, Some d) | LDetach c d _ => (c, Some d) | LRemove c d _ => (c, Some d) | LAttachFail c d _ => (c, Some d)
+  end.
+
+(* after the call: did the failing attach end up attached (somebody else held the document)? *)
+Definition attach_fail_succeeds (s' : lstate) (c d : N) : bool :=
+  match aget (l_clients s') c with
+  | Some x => match find_doc (lc_docs x) d with Some dd => dstatus_eqb (ld_status dd) DAttached | None => false end
+  | None => false
   end.
 
 Definition obs_matches (s : lstate) (call : lcall) (ok : bool) (o : lobs) : bool :=
   let '(c, od) := call_target call in
-  Bool.eqb ok (lo_ok o) &&
+  (* a failing attach is answered with an error whether or not it left its residue *)
+  Bool.eqb (match call with LAttachFail c d _ => ok && attach_fail_succeeds s c d | _ => ok end) (lo_ok o) &&
   match aget (l_clients s) c with
   | Some x =>
       Bool.eqb (lc_active x) (lo_active o) &&
